@@ -283,10 +283,6 @@ theorem c16_splitEq_ann (a : Ann) (ys : List Tok) :
 
 /-! ### single items -/
 
-def optWf : Option Ann → Bool
-  | some a => a.wf
-  | none => true
-
 theorem c16_annPartOk (ann : Option Ann) (h : optWf ann = true) : annPartOk (annPart ann) = true := by
   cases ann with
   | none => rfl
@@ -698,36 +694,6 @@ theorem c16_helper_parses (anns : String → Ann) (hk : Helper) (s : Sig)
 
 /-! ### methods / functions re-rendered from `inspect.signature`: print, then parse, gives the signature back -/
 
-/-- phases of a legal `inspect.Signature` parameter list -/
-inductive VPhase where
-  /-- nothing yet -/
-  | po0
-  /-- only positional-only parameters so far (at least one) -/
-  | po1
-  | pk
-  /-- after `*args` or a keyword-only parameter -/
-  | ko
-  | done
-deriving Repr, DecidableEq
-
-/-- what `inspect.Signature.__init__` enforces: kinds in order, no parameter without default after one with
-    default among the positional ones, no default on `*args` / `**kw` -/
-def validGo : VPhase → Bool → List RParam → Bool
-  | _, _, [] => true
-  | ph, seenD, p :: rest =>
-    match p.kind with
-    | .po => (ph = .po0 || ph = .po1) && !(!p.dflt.isSome && seenD) && validGo .po1 (seenD || p.dflt.isSome) rest
-    | .pk => (ph = .po0 || ph = .po1 || ph = .pk) && !(!p.dflt.isSome && seenD) &&
-               validGo .pk (seenD || p.dflt.isSome) rest
-    | .va => (ph = .po0 || ph = .po1 || ph = .pk) && p.dflt.isNone && validGo .ko seenD rest
-    | .ko => (ph != .done) && validGo .ko seenD rest
-    | .vk => (ph != .done) && p.dflt.isNone && validGo .done seenD rest
-
-def validSig (ps : List RParam) : Bool := validGo .po0 false ps
-
-/-- names are bindable, annotations / defaults are expressions of the subset -/
-def rparamOk (p : RParam) : Bool := identOk p.name && optWf p.ann && optWf p.dflt
-
 def rItem (p : RParam) : Item :=
   match p.kind with
   | .va => .va p.name
@@ -765,13 +731,6 @@ theorem c16_sigI_ko (pend found : Bool) (p : RParam) (rest : List RParam) (hk : 
 theorem c16_sigI_vk (pend found : Bool) (p : RParam) (rest : List RParam) (hk : p.kind = .vk) :
     sigItemsI pend found (p :: rest) = slashIf pend ++ (.vk p.name :: sigItemsI false found rest) := by
   cases pend <;> cases found <;> simp +decide [sigItemsI, hk, rItem, slashIf, starIf] <;> rfl
-
-/-- `*args` / `**kw` never carry a default in a signature -/
-def noVarDefault (p : RParam) : Bool :=
-  match p.kind with
-  | .va => p.dflt.isNone
-  | .vk => p.dflt.isNone
-  | _ => true
 
 theorem c16_rparamToks_classify (p : RParam) (h : rparamOk p = true) (hv : noVarDefault p = true) :
     classify (rparamToks p) = some (rItem p) := by
